@@ -22,6 +22,7 @@ from vp import gen, probe, refmodels as rm
 from vp import defaults
 from vp import reuse
 from vp import forms as argforms
+from vp import corners
 from vp.monitors import C04
 
 RULE = ('seeded generator: a catalogue of ~45 public operations (plane constructors, multiply, propagate_dft/fft, fit_tilt, '
@@ -34,7 +35,7 @@ ASSUMPTIONS = ['repeated calls are compared to 1e-12 relative rather than bit-fo
                'in-place whitelist (the documented target only - fit_tilt(inplace=True) edits the Plane, not the array it was built from): Wavefront.insert(out), field.insert(out), dft2/idft2(out=), '
                'propagate_fft(scratch=), Spectrum.crop/trim/pad/append/resample/to']
 PLAN = {'quick': {'gen': 8}, 'thorough': {'gen': 16, 'tests': 1}}
-REQUIRED_BUCKETS = ['defaults', 'reuse', 'forms', 'op:Plane()', 'op:Pupil(mask3d)', 'op:multiply', 'op:propagate_dft', 'op:propagate_fft', 'op:fit_tilt',
+REQUIRED_BUCKETS = ['defaults', 'corners', 'reuse', 'forms', 'op:Plane()', 'op:Pupil(mask3d)', 'op:multiply', 'op:propagate_dft', 'op:propagate_fft', 'op:fit_tilt',
                     'op:rescale', 'op:adc', 'op:collect_charge', 'op:collect_charge_bayer', 'op:tilt-multiply', 'op:Field(ndarray offset)', 'op:Plane.properties', 'op:pixel', 'op:jitter', 'op:smear',
                     'op:dft2', 'op:idft2', 'op:zernike_fit', 'op:pad', 'op:rebin', 'op:power_spectrum', 'op:Spectrum.multiply',
                     'op:Spectrum.sample', 'op:Spectrum.bin', 'op:Spectrum.to', 'op:refusals', 'op:fit_tilt:nothing-to-fit', 'op:fit_tilt:inplace', 'op:fit_tilt:reused-plane', 'op:shot_noise', 'op:read_noise', 'program', 'dft-keys>32',
@@ -697,6 +698,7 @@ def workload(ctx, lentil):
     defaults.run(ctx, lentil, 'C10', 'frozen-inputs')
     reuse.run(ctx, lentil, 'C10', 'frozen-inputs')
     argforms.run(ctx, lentil, 'C10', 'frozen-inputs')
+    corners.run(ctx, lentil, 'C10', 'frozen-inputs')
     rng = ctx.rng
     rounds = ctx.count(6, 40)
     history = []           # (name, args (pristine copy), call, digest)
